@@ -123,10 +123,11 @@ READ_OPS = {"open", "opendir", "stat", "lstat", "fstatat", "statx", "access"}
 WRITE_OPS = {"openw", "mkdir", "rmdir", "unlink", "rename", "utimens", "write", "fsync"}
 
 
-def monitor(folder, entries):
-    """lock-set monitor on one request's log.  Returns (complaints, windows)"""
+def monitor(folder, entries, tid=None):
+    """lock-set monitor on one request's log (the thread `tid`, or the first thread that touches the lock file).
+    Returns (complaints, windows)"""
     tids = [e["tid"] for e in entries if e["op"] == "flock" and classify(folder, e["path"]) == "lock"]
-    main = tids[0] if tids else (entries[0]["tid"] if entries else None)
+    main = tid if tid is not None else (tids[0] if tids else (entries[0]["tid"] if entries else None))
     held = None
     complaints = []
     windows = []
@@ -277,6 +278,58 @@ def run_kind(ctx, rec, name, kind, conf_name, conf, hooklog):
             ctx.extra.setdefault("undisciplined", []).append(method)
 
 
+def overlapping_requests(ctx, rec):
+    """two requests of one process overlap in time: request A is held inside its lock window (at an item read) while request B
+    runs; every thread must take the lock file itself — the lock-set rule is per serving thread, not per process"""
+    import threading
+    import radicale.storage.multifilesystem.get as mget
+    L = scenarios.LOGIN
+    combos = [("PROPFIND", "/u/cal/", PROPFIND_ALL, {"HTTP_DEPTH": "1"}, "GET", "/u/cal/b.ics", None, {}),
+              ("REPORT", "/u/cal/", MULTIGET, {}, "PROPFIND", "/u/cal/", PROPFIND_ALL, {"HTTP_DEPTH": "1"}),
+              ("PROPFIND", "/u/cal/", PROPFIND_ALL, {"HTTP_DEPTH": "1"}, "REPORT", "/u/cal/", QUERY, {}),
+              ("GET", "/u/cal/", None, {}, "GET", "/u/cal/a.ics", None, {})]
+    for conf_name, conf in (("default", {}), ("nolock", {"storage": {"type": "multifilesystem_nolock"}})):
+        for ma, pa, ba, ea, mb, pb, bb, eb in combos:
+            with App(dict(conf, rights=permissive_rights(), auth={"type": "none"})) as app:
+                scenarios.build_store(app, 2)
+                folder = os.path.realpath(app.folder)
+                orig_get = mget.CollectionPartGet._get
+                state = {"a_tid": None, "b": None, "b_tid": None, "b_status": None, "n": 0}
+
+                def run_b():
+                    state["b_tid"] = str(threading.get_native_id())
+                    state["b_status"] = app.request(mb, pb, bb, login=L, **eb)[0]
+
+                def held_get(self, href, verify_href=True):
+                    if threading.get_ident() == state["a_tid"] and state["b"] is None:
+                        state["b"] = threading.Thread(target=run_b, daemon=True)
+                        state["b"].start()
+                        state["b"].join(timeout=10)          # both are readers: B does not have to wait for A
+                    return orig_get(self, href, verify_href)
+                mget.CollectionPartGet._get = held_get
+                state["a_tid"] = threading.get_ident()
+                a_native = str(threading.get_native_id())
+                rec.start()
+                try:
+                    sa = app.request(ma, pa, ba, login=L, **ea)[0]
+                    if state["b"] is not None:
+                        state["b"].join(timeout=20)
+                finally:
+                    mget.CollectionPartGet._get = orig_get
+                    ent, _ = rec.stop()
+                case = {"held": "%s %s" % (ma, pa), "meanwhile": "%s %s" % (mb, pb), "config": conf_name,
+                        "statuses": [sa, state["b_status"]], "meanwhile_ran": state["b"] is not None}
+                ctx.case("overlap:%s/%s|%s" % (ma, mb, conf_name), sample=case, key=["overlap", ma, mb, conf_name], nontrivial=state["b"] is not None)
+                if conf_name == "nolock":
+                    continue                              # no lock file: only that both are served
+                for who, tid in (("held request", a_native), ("request served meanwhile", state["b_tid"])):
+                    if tid is None:
+                        continue
+                    complaints, windows = monitor(folder, ent, tid=tid)
+                    for c in complaints[:2]:
+                        ctx.violation("lock discipline (%s, its own thread): %s" % (who, c), case)
+
+
 def run(ctx):
     ctx.extra["rule"] = ("21 modifying + 35 reading / failing request types (all methods, error exits, REPORT variants incl. early unlock, "
                          "sync under the shared lock, emptied caches, first login, anonymous) x configurations {default, hook, cache sub-folders, "
@@ -299,6 +352,7 @@ def run(ctx):
         for conf_name, conf in confs:
             for name, kind in kinds.items():
                 run_kind(ctx, rec, name, kind, conf_name, conf, hooklog)
+        overlapping_requests(ctx, rec)
     finally:
         rec.close()
         if os.path.exists(hooklog):
